@@ -98,19 +98,21 @@ let list_rb (st, o) : string =
   Printf.sprintf "n=%d g=%s i=%s" n (plist pe g) (plist_cut pe (sweep st o n))
 
 (* vector: elements are shown by key text if the vector currently stores that object *)
-let inset : (int, unit) Hashtbl.t = Hashtbl.create 64
+(* one table per container: `inset` for the one being shown, `inset_other` for the other one after `fork` *)
+let inset : (int, unit) Hashtbl.t ref = ref (Hashtbl.create 64)
+let inset_other : (int, unit) Hashtbl.t ref = ref (Hashtbl.create 64)
 let seen : (int, int) Hashtbl.t = Hashtbl.create 64
 let pv = function
   | None -> "_"
   | Some e ->
     let id = int_of_nat e.eid in
-    if Hashtbl.mem inset id then begin
+    if Hashtbl.mem !inset id then begin
       Hashtbl.replace seen id (1 + (try Hashtbl.find seen id with Not_found -> 0));
       string_of_key e.ekey
     end else "?"
 let seen_all_once () =
-  Hashtbl.fold (fun id _ acc -> acc && (try Hashtbl.find seen id with Not_found -> 0) = 1) inset true
-  && Hashtbl.fold (fun id c acc -> acc && (c = 0 || Hashtbl.mem inset id)) seen true
+  Hashtbl.fold (fun id _ acc -> acc && (try Hashtbl.find seen id with Not_found -> 0) = 1) !inset true
+  && Hashtbl.fold (fun id c acc -> acc && (c = 0 || Hashtbl.mem !inset id)) seen true
 let vec_rb (st, o) : string =
   let n = int_of_z o.dlen in
   Hashtbl.reset seen;
@@ -140,41 +142,163 @@ let bdump px (st, o) : string =
   Printf.sprintf "D len=%d next=%s prev=%s hp=%s tn=%s" (int_of_z d.b_len)
     (plist_cut px (d.b_next, d.b_next_cut)) (plist_cut px (d.b_prev, d.b_prev_cut)) (pflag d.b_hp) (pflag d.b_tn)
 
-let history step parse show rb px after init (ops : string list) : string =
+(* ==== BEGIN composite layer (the same text in driver/cont_main.ml and the three class drivers) ====
+   Quiet steps, own-object arguments and the second use of a copy (`fork` / `swap`) are harness- and
+   driver-level COMPOSITIONS of the existing spec operations (grammar: top of harness/cont.c); the op
+   datatypes lop / vop / mop of ContSpec.v and the theorems about them are untouched.  `step` is total
+   here: the class drivers unwrap `res` (a model Fault is an exception). *)
+let own_list step show after s (a : string list) =
+  let via i mk =
+    match step s (LGet (z_of_int (int_of_string i))) with
+    | (_, OElem (Some e)) ->
+      let op = mk e in
+      let (s', r) = step s op in
+      let x = pe (Some e) in
+      let y = show r in
+      after op r; Some (s', x ^ "/" ^ y)
+    | (_, OElem None) -> Some (s, "_/-")
+    | _ -> failwith "bad-op" in
+  match a with
+  | ["remove_own"; i] -> via i (fun e -> LRemove (Some e))
+  | ["index_own"; i] -> via i (fun e -> LIndex e)
+  | ["find_own"; i] -> via i (fun e -> LFind (Some e))
+  | ["contains_own"; i] -> via i (fun e -> LContains (Some e))
+  | _ -> None
+
+let own_vec step show after s (a : string list) =
+  let via k mk =
+    let p = mk_elem k in
+    match step s (VFind p) with
+    | (_, (OElem (Some e) as r0)) ->
+      let x = show r0 in
+      let op = mk e in
+      let (s', r) = step s op in
+      let y = show r in
+      after op r; Some (s', x ^ "/" ^ y)
+    | (_, OElem None) -> Some (s, "_/-")
+    | _ -> failwith "bad-op" in
+  match a with
+  | ["remove_own"; k] -> via k (fun e -> VRemove e)
+  | ["find_own"; k] -> via k (fun e -> VFind e)
+  | ["contains_own"; k] -> via k (fun e -> VContains e)
+  | _ -> None
+
+let own_map step show after s (a : string list) =
+  let ks = key_of_string in
+  let via k shown mk =
+    match step s (MGet (ks k)) with
+    | (_, OText (Some v)) ->
+      let (s', r) = step s (mk v) in
+      Some (s', shown v ^ "/" ^ show_out r)
+    | (_, OText None) -> Some (s, "_/-")
+    | _ -> failwith "bad-op" in
+  match a with
+  | ["set_own"; k] -> via k string_of_key (fun v -> MSet (ks k, v))
+  | ["has_value_own"; k] -> via k string_of_key (fun v -> MHasValue v)
+  | ["set_ownpair"; k] -> via k (fun v -> k ^ "=" ^ string_of_key v) (fun v -> MSet (ks k, v))
+  | ["set_ownkey"; k; v] -> via k (fun _ -> k) (fun _ -> MSet (ks k, ks v))
+  | ["get_ownkey"; k] -> via k (fun _ -> k) (fun _ -> MGet (ks k))
+  | ["remove_ownkey"; k] -> via k (fun _ -> k) (fun _ -> MRemove (ks k))
+  | ["set_pair"; k; v] -> let (s', r) = step s (MSet (ks k, ks v)) in Some (s', show_out r)
+  | [("get_keys_into" | "get_values_into" | "get_pairs_into") as o; ("A" | "L" | "D")] ->
+    (* non-NULL form: the results are appended to the caller's list, which already holds "pre" *)
+    let op = (match o with "get_keys_into" -> MGetKeys | "get_values_into" -> MGetValues | _ -> MGetPairs) in
+    let (s', r) = step s op in
+    let items = (match r with
+        | OTexts l -> List.map string_of_key l
+        | OPairs l -> List.map (fun p -> ppr (Some p)) l
+        | _ -> failwith "bad-op") in
+    Some (s', "[" ^ String.concat "," ("pre" :: items) ^ "]")
+  | _ -> None
+
+(* dup: the state after `fork` (copy current, original still reachable through its header);
+   hdr / mk: a container's header within a state / the state seen through another header (class
+   models with a node store share the store between the two containers; for value models hdr is the
+   identity); on_fork / on_swap: per-container bookkeeping of the driver (vector `inset` tables) *)
+type ('s, 'h) glue = { dup : 's -> 's; hdr : 's -> 'h; mk : 's -> 'h -> 's;
+                       on_fork : unit -> unit; on_swap : unit -> unit }
+let value_glue dup = { dup = dup; hdr = (fun s -> s); mk = (fun _ h -> h);
+                       on_fork = (fun () -> ()); on_swap = (fun () -> ()) }
+
+let history_c ?(catch = (fun (_ : exn) -> (None : string option))) step parse own show after rb bd g fin init
+    (ops : string list) : string =
   let b = Buffer.create 256 in
-  let s = ref init in
+  let cur = ref init and other = ref None in
   (try
      List.iter (fun o ->
-         let op = parse (String.split_on_char ':' o) in
-         let (s', r) = ok (step !s op) in
-         s := s';
-         let rs = show r in
-         after op r;
-         Buffer.add_string b (rs ^ " " ^ rb s' ^ "|" ^ bdump px s' ^ " ; ")) ops;
-     (* tear-down: the container deletes its items *)
-     let (st, o) = !s in
-     ignore (ok (dl_done st o));
-     Buffer.add_string b "end"
-   with Model_fault f -> Buffer.add_string b ("FAULT:" ^ fault_name f));
+         let quiet = String.length o > 0 && o.[0] = '~' in
+         let o = if quiet then String.sub o 1 (String.length o - 1) else o in
+         let a = String.split_on_char ':' o in
+         let rs =
+           match a with
+           | ["fork"] ->
+             (match !other with
+              | Some _ -> failwith "bad-op"
+              | None -> let d = g.dup !cur in other := Some (g.hdr !cur); cur := d; g.on_fork (); "T")
+           | ["swap"] ->
+             (match !other with
+              | Some h -> let h' = g.hdr !cur in cur := g.mk !cur h; other := Some h'; g.on_swap ()
+              | None -> ());
+             "T"
+           | _ ->
+             (match own step show after !cur a with
+              | Some (s', str) -> cur := s'; str
+              | None ->
+                let op = parse a in
+                let (s', r) = step !cur op in
+                cur := s';
+                let rs = show r in
+                after op r; rs) in
+         if quiet then Buffer.add_string b (rs ^ "| ; ")
+         else begin
+           let both f =
+             match !other with
+             | None -> f !cur
+             | Some h ->
+               let x = f !cur in
+               g.on_swap ();
+               let y = (try f (g.mk !cur h) with e -> g.on_swap (); raise e) in
+               g.on_swap ();
+               if x = "" && y = "" then "" else x ^ " O " ^ y in
+           let x = both rb in
+           let y = both bd in
+           Buffer.add_string b (rs ^ " " ^ x ^ "|" ^ y ^ " ; ")
+         end) ops;
+     Buffer.add_string b (fin !cur !other)
+   with e -> (match catch e with Some s -> Buffer.add_string b s | None -> raise e));
   Buffer.contents b
+(* ==== END composite layer ==== *)
 
 (* the harness's bookkeeping of which objects the vector stores *)
 let vec_after (op : vop) (r : out) =
   match op, r with
-  | VInsert e, OBool true -> Hashtbl.replace inset (int_of_nat e.eid) ()
-  | VRemove _, OElem (Some e) -> Hashtbl.remove inset (int_of_nat e.eid)
+  | VInsert e, OBool true -> Hashtbl.replace !inset (int_of_nat e.eid) ()
+  | VRemove _, OElem (Some e) -> Hashtbl.remove !inset (int_of_nat e.eid)
   | _ -> ()
+let no_after _ _ = ()
 
 let run = function
   | [iface; cls; ops] ->
     if cls <> "dlinked_list" then "SKIP" else begin
       next_id := 0;
-      Hashtbl.reset inset; Hashtbl.reset seen;
+      inset := Hashtbl.create 64; inset_other := Hashtbl.create 64; Hashtbl.reset seen;
       let ol = String.split_on_char ';' ops in
+      let st step s op = ok (step s op) in
+      (* spif_dlinked_list_dup (the vector and map variants are the same text): the copy's nodes live in the
+         same store; a duplicated object is shown under the id of its original *)
+      let glue () = { dup = (fun (s, o) -> ok (dl_dup s o)); hdr = snd; mk = (fun (s, _) h -> (s, h));
+                      on_fork = (fun () -> inset_other := !inset; inset := Hashtbl.copy !inset_other);
+                      on_swap = (fun () -> let t = !inset in inset := !inset_other; inset_other := t) } in
+      (* tear-down: the containers delete their items, the current one first *)
+      let fin (s, o) other =
+        let (s, _) = ok (dl_done s o) in
+        (match other with Some h -> ignore (ok (dl_done s h)) | None -> ());
+        "end" in
+      let catch = function Model_fault f -> Some ("FAULT:" ^ fault_name f) | _ -> None in
       match iface with
-      | "list" -> history dl_list_step parse_lop show_out list_rb pe (fun _ _ -> ()) e_init ol
-      | "vector" -> history dl_vec_step parse_vop show_vout vec_rb pe vec_after e_init ol
-      | "map" -> history dl_map_step parse_mop show_out map_rb ppr (fun _ _ -> ()) m_init ol
+      | "list" -> history_c ~catch (st dl_list_step) parse_lop own_list show_out no_after list_rb (bdump pe) (glue ()) fin e_init ol
+      | "vector" -> history_c ~catch (st dl_vec_step) parse_vop own_vec show_vout vec_after vec_rb (bdump pe) (glue ()) fin e_init ol
+      | "map" -> history_c ~catch (st dl_map_step) parse_mop own_map show_out no_after map_rb (bdump ppr) (glue ()) fin m_init ol
       | _ -> "DRIVER-ERROR:bad-interface"
     end
   | _ -> "DRIVER-ERROR:bad-case"
